@@ -415,8 +415,8 @@ fn configs(thorough: bool) -> Vec<(Cfg, usize)> {
             (c("seeded", 2, 2, 4), 4),
             (c("dueling", 2, 0, 2), 3),
             (c("phased", 3, 0, 1), 3),
-            (c("phased_post", 1, 0, 1), 4),
-            (c("phased_post", 2, 0, 2), 3),
+            (c("phased_post", 1, 0, 1), 3),
+            (c("phased_post", 2, 0, 2), 2),
         ]
     } else {
         vec![(c("concurrent", 2, 2, 2), 2), (c("seeded", 2, 2, 3), 3), (c("dueling", 1, 0, 2), 2), (c("phased", 2, 0, 1), 2), (c("phased_post", 1, 0, 1), 2)]
@@ -628,7 +628,7 @@ pub fn run(rep: &mut Report, thorough: bool, replay: Option<Value>) {
     }
     let cfgs: Vec<(Cfg, usize)> = cfgs.into_iter().map(|(c, b)| (c, bound_override.unwrap_or(b))).collect();
     rep.bound("deviation_bound_per_config", json!(cfgs.iter().map(|(c, b)| json!([c.key(), b])).collect::<Vec<_>>()));
-    let wall_per_cfg: u64 = std::env::var("VF_C40_WALL").ok().and_then(|s| s.parse().ok()).unwrap_or(if thorough { 150 } else { 40 });
+    let wall_per_cfg: u64 = std::env::var("VF_C40_WALL").ok().and_then(|s| s.parse().ok()).unwrap_or(if thorough { 200 } else { 40 });
     rep.bound("wall_cap_s_per_config", wall_per_cfg);
     let nshards = if thorough { vf_explore::ncpu().clamp(1, 12) } else { vf_explore::ncpu().clamp(1, 4) };
     rep.bound("worker_processes", nshards);
